@@ -804,7 +804,8 @@ NLiveUnary == Cardinality({v \in live : v.kind = "unary"})
 \* By design the server's read loop waits, head of line, for a free unary worker (8) or for a live stream
 \* handler that is not receiving; while it waits it does not read, so a failing transport read has not happened yet.
 SrvHol == \/ NLiveUnary >= 8 /\ preq # <<>>                      \* a request it has read waits for a worker
-          \/ \E v \in live : /\ v.kind # "unary" /\ v.in # "recv" /\ v.h \in DOMAIN hnds
+          \* (only while that handler's context is live: the read loop lets go of a stream whose context is done)
+          \/ \E v \in live : /\ v.kind # "unary" /\ v.in # "recv" /\ v.res = "live" /\ v.h \in DOMAIN hnds
                               \* one envelope fits the stream's queue, the next one is in the read loop's hand
                               /\ Len(Sin(hnds[v.h].id).items) - hnds[v.h].nrecv >= 2
 SrvDownSeen == flt \cap {"swfail", "stop", "serveret"} # {} \/ phase # "run" \/ ("sread" \in flt /\ ~SrvHol)
@@ -837,7 +838,7 @@ Quiesce(ngor, nsrv, unreadS, unreadC) ==
   \* a live server keeps reading what is deliverable, unless its worker pool is busy with live handlers or it
   \* waits (head of line, by design) for a live stream handler that is not reading (C12, C11); likewise the client
   /\ G("robust", (unreadS > 0 /\ cfg.ncli = 1 /\ ~cfg.rawsrv) => SrvDown \/ stall \/ NLiveUnary >= 8
-                      \/ \E v \in live : v.kind # "unary" /\ v.in # "recv")
+                      \/ \E v \in live : v.kind # "unary" /\ v.in # "recv" /\ v.res = "live")
   /\ G("pend", (unreadC > 0 /\ cfg.ncli = 1 /\ ~cfg.rawcli) => CliDown \/ stall
                       \/ CliHol)
   \* every returned handler has its response / close on the wire (C06)
